@@ -278,11 +278,11 @@ OfType(ty) == { x \in Values : x.ty = ty }
 Prefixes(s) == { SubSeq(s, 1, i) : i \in 0..Len(s) - 1 }      \* proper prefixes
 EncSet(ty) == { Enc(x) : x \in OfType(ty) }
 (* C15: equal encodings => equal values *)
-Injective == \A ty \in Types : Cardinality(EncSet(ty)) = Cardinality(OfType(ty))
+Injective(u) == \A ty \in Types : Cardinality(EncSet(ty)) = Cardinality(OfType(ty))
 (* C14: no encoding is a proper prefix of another encoding of the same     *)
 (* type, so a decoder that has consumed Enc(v) knows it has: concatenated  *)
 (* values decode one after the other.                                      *)
-PrefixFree == \A ty \in Types : (UNION { Prefixes(e) : e \in EncSet(ty) }) \cap EncSet(ty) = {}
+PrefixFree(u) == \A ty \in Types : (UNION { Prefixes(e) : e \in EncSet(ty) }) \cap EncSet(ty) = {}
 (* C14: the grammar is deterministic at token level - after the same       *)
 (* tokens every encoding continues with a token of the same kind and, for  *)
 (* the fixed-size kinds, the same size; variable-size kinds carry their    *)
@@ -290,13 +290,13 @@ PrefixFree == \A ty \in Types : (UNION { Prefixes(e) : e \in EncSet(ty) }) \cap 
 Shape(t) == IF t.k \in {"big", "blob16", "str16"} THEN <<t.k, 0>> ELSE <<t.k, t.l>>
 NextShapes(E) == UNION { { <<SubSeq(e, 1, i), Shape(e[i + 1])>> : i \in 0..Len(e) - 1 } : e \in E }
 ProperPrefixSet(E) == UNION { Prefixes(e) : e \in E }
-Deterministic == \A ty \in Types : Cardinality(NextShapes(EncSet(ty))) = Cardinality(ProperPrefixSet(EncSet(ty)))
+Deterministic(u) == \A ty \in Types : Cardinality(NextShapes(EncSet(ty))) = Cardinality(ProperPrefixSet(EncSet(ty)))
 
 (***************************************************************************)
 (* C14 export: value + token stream                                        *)
 (***************************************************************************)
 EncCase(x) == [ty |-> x.ty, v |-> x.v, toks |-> Enc(x), alts |-> EncAlts(x)]
-ExportEnc == \A x \in Values : PrintT(ToJson(EncCase(x)))
+ExportEnc(u) == \A x \in Values : PrintT(ToJson(EncCase(x)))
 
 (***************************************************************************)
 (* C13: structured mutants of a token stream.  A mutant is                 *)
@@ -387,12 +387,12 @@ MutTargets == IF Deep THEN Values ELSE
   \cup V("Balances", BalsDom) \cup V("SubAlloc", SubAllocs) \cup V("Params", { p \in ParamsDom : p.cd = 60 /\ p.nonce = 77 })
   \cup V("Transaction", Txs) \cup (Values \ (V("Envelope", Envs) \cup V("State", States) \cup V("Params", ParamsDom)))
 MutCase2(ty, toks, base, why) == [ty |-> ty, toks |-> toks, base |-> base, why |-> why, bytes |-> ByteLen(toks), muts |-> MutSeq(toks)]
-ExportMut ==
+ExportMut(u) ==
   /\ \A x \in MutTargets : PrintT(ToJson(MutCase2(x.ty, Enc(x), "value", "valid")))
   /\ \A b \in BadStreams : PrintT(ToJson(MutCase2(b.ty, b.toks, b.base, b.why)))
 (* every over-limit mutant is expected to be rejected; truncations are     *)
 (* proper prefixes (rejected by PrefixFree + Deterministic)                *)
-MutSane == \A x \in V("Balances", BalsDom) \cup V("SubAlloc", SubAllocs) :
+MutSane(u) == \A x \in V("Balances", BalsDom) \cup V("SubAlloc", SubAllocs) :
               \A m \in Mutants(Enc(x)) : (m.over => m.exp = "error") /\ (m.op = "cut" => m.at < Len(Enc(x)) \/ m.tok.s = "inside")
 
 (***************************************************************************)
@@ -400,6 +400,7 @@ MutSane == \A x \in V("Balances", BalsDom) \cup V("SubAlloc", SubAllocs) :
 (***************************************************************************)
 SetAt(seq, i, v) == [seq EXCEPT ![i] = v]
 Drop(seq) == SubSeq(seq, 1, Len(seq) - 1)
+Bump(x) == IF x >= MaxInt32 THEN 3 ELSE x + 1
 OtherApp(a) == IF a = "none" THEN "APP1" ELSE IF a = "APP1" THEN "APP2" ELSE "APP1"
 OtherData(d) == IF d = "D1" THEN "D2" ELSE "D1"
 StateVariants(s) ==
@@ -411,11 +412,11 @@ StateVariants(s) ==
        <<"data", [s EXCEPT !.data = OtherData(@)]>> }
      \cup (IF s.app = "none" THEN { <<"app", [s EXCEPT !.app = "APP1", !.data = IF s.data = "D0" THEN "D1" ELSE s.data]>> }
            ELSE { <<"app", [s EXCEPT !.app = OtherApp(@)]>>, <<"app-removed", [s EXCEPT !.app = "none"]>> })
-     \cup { <<"balance", [s EXCEPT !.alloc.bals[a][j] = @ + 1]>> : a \in 1..na, j \in 1..np }
+     \cup { <<"balance", [s EXCEPT !.alloc.bals[a][j] = Bump(@)]>> : a \in 1..na, j \in 1..np }
      \cup { <<"asset", [s EXCEPT !.alloc.assets[a].a = "A9"]>> : a \in 1..na }
      \cup { <<"backend", [s EXCEPT !.alloc.assets[a].b = 1]>> : a \in 1..na }
      \cup { <<"locked-id", [s EXCEPT !.alloc.locked[k].id = "I9"]>> : k \in 1..nl }
-     \cup { <<"locked-amount", [s EXCEPT !.alloc.locked[k].bals[a] = @ + 1]>> : k \in 1..nl, a \in 1..na }
+     \cup { <<"locked-amount", [s EXCEPT !.alloc.locked[k].bals[a] = Bump(@)]>> : k \in 1..nl, a \in 1..na }
      \cup UNION { { <<"indexmap-entry", [s EXCEPT !.alloc.locked[k].im[e] = @ + 1]>> : e \in 1..Len(al.locked[k].im) } : k \in 1..nl }
      \cup { <<"indexmap-longer", [s EXCEPT !.alloc.locked[k].im = Append(@, 0)]>> : k \in 1..nl }
      \cup { <<"indexmap-shorter", [s EXCEPT !.alloc.locked[k].im = Drop(@)]>> : k \in { j \in 1..nl : Len(al.locked[j].im) > 0 } }
@@ -441,13 +442,13 @@ PairCase(v, w, name) ==
            sub |-> SubEq(v, w)],
    enceq |-> EncState(v) = EncState(w)]
 Variants(s) == StateVariants(s)
-ExportPair ==
+ExportPair(u) ==
   \A s \in PairStates :
      /\ PrintT(ToJson(PairCase(s, s, "identical")))
      /\ \A x \in Variants(s) : PrintT(ToJson(PairCase(s, x[2], x[1])))
 (* C15 in the model: a single-field variant is a different value and has a *)
 (* different encoding; identical values have identical encodings           *)
-PairTheorem == \A s \in PairStates : \A x \in Variants(s) : x[2] # s /\ EncState(x[2]) # EncState(s)
+PairTheorem(u) == \A s \in PairStates : \A x \in Variants(s) : x[2] # s /\ EncState(x[2]) # EncState(s)
 
 (***************************************************************************)
 (* C17: the channel id commits to the parameters.  Nonces are strings      *)
@@ -480,10 +481,10 @@ IdVariants(p) ==
   \cup { <<"nonce-boundary", [p EXCEPT !.nonce = n]>> : n \in {"2^256-1", "2^256", "2^263-1", "2^263", "2^264", "2^255"} \ {p.nonce} }
 IdCase(p, q, name) == [base |-> p, var |-> q, name |-> name, validBase |-> ParamsValid(p), validVar |-> ParamsValid(q),
                        same |-> PreImage(p) = PreImage(q)]
-ExportId == \A p \in IdBases : PrintT(ToJson(IdCase(p, p, "identical"))) /\ \A x \in IdVariants(p) : PrintT(ToJson(IdCase(p, x[2], x[1])))
+ExportId(u) == \A p \in IdBases : PrintT(ToJson(IdCase(p, p, "identical"))) /\ \A x \in IdVariants(p) : PrintT(ToJson(IdCase(p, x[2], x[1])))
 (* the pre-image is injective in every listed field: the only variant with *)
 (* the same pre-image is the one that only re-writes the nonce             *)
-IdTheorem == \A p \in IdBases : ParamsValid(p) /\ \A x \in IdVariants(p) : (PreImage(p) = PreImage(x[2])) = (x[1] = "nonce-leading-zeros")
+IdTheorem(u) == \A p \in IdBases : ParamsValid(p) /\ \A x \in IdVariants(p) : (PreImage(p) = PreImage(x[2])) = (x[1] = "nonce-leading-zeros")
 
 (***************************************************************************)
 (* C16: chunkings of the byte stream, described relative to token          *)
@@ -501,39 +502,50 @@ ChunkShort == { Env([t |-> "Ping", time |-> 7]), Env([t |-> "Shutdown", reason |
                 Env([t |-> "Update", upd |-> [st |-> StOf(Alloc(2, 2, <<SA("I1", 2, <<1, 0>>)>>)), actor |-> 1, sig |-> "G1"]]),
                 Env([t |-> "Sync", phase |-> 5, tx |-> [set |-> 1, st |-> StOf(Alloc(1, 3, <<>>)), sigs |-> <<"G1", "", "G3">>]]),
                 Env([t |-> "LCP", base |-> CHOOSE b \in Bases : b.aux = "X1", part |-> WM("W1"), peers |-> Peers(2)]) }
-SchedsFor(toksList) ==
-  LET ne == Len(toksList)
-      all == UNION { { Cut(e, i, w) : i \in 1..Len(toksList[e]), w \in {0, 1, 2} } : e \in 1..ne } IN
-  { Sched("all-at-once", <<>>, 0), Sched("bytewise", <<>>, 1), Sched("segments", <<>>, 1400), Sched("segments", <<>>, 7),
-    Sched("segments", <<>>, 2), Sched("segments", <<>>, 3), Sched("segments", <<>>, 536), Sched("random", <<>>, 0), Sched("random", <<>>, 1), Sched("random", <<>>, 2) }
-  \cup { Sched("every-boundary", <<>>, 0), Sched("inside-every-token", <<>>, 0), Sched("before-last-byte-of-every-token", <<>>, 0) }
-  \cup (IF ne * 40 > Cardinality(all) \/ Deep THEN { Sched("single-cut", <<c>>, 0) : c \in all } ELSE { Sched("single-cut", <<c>>, 0) : c \in { x \in all : x.i <= 4 \/ x.i >= Len(toksList[x.e]) - 2 } })
-  \cup (IF ne > 1 THEN { Sched("span-boundary", <<Cut(e, Len(toksList[e]), 2), Cut(e + 1, 1, 1)>>, 0) : e \in 1..ne - 1 }
-                       \cup { Sched("span-boundary", <<Cut(e, Len(toksList[e]) - 1, 0), Cut(e + 1, 3, 0)>>, 0) : e \in 1..ne - 1 }
-                       \cup { Sched("span-boundary", <<Cut(e + 1, 1, 1)>>, 0) : e \in 1..ne - 1 }
-        ELSE {})
-ChunkCase(envs) == LET tl == [e \in 1..Len(envs) |-> EncEnv(envs[e])] IN
-  [envs |-> [e \in 1..Len(envs) |-> [v |-> envs[e], toks |-> tl[e], bytes |-> ByteLen(tl[e])]], scheds |-> SetToSeq(SchedsFor(tl))]
+(* explicit tuples: TLC evaluates [e \in S |-> ..] lazily at every application *)
+Tup(f(_), n) == IF n = 1 THEN <<f(1)>> ELSE IF n = 2 THEN <<f(1), f(2)>> ELSE <<f(1), f(2), f(3)>>
+SchedSeq(lens) ==
+  LET ne == Len(lens)
+      total == Sum(lens)
+      keep(e, i) == total <= 400 \/ (Deep /\ total <= 4000) \/ i <= 4 \/ i >= lens[e] - 2 IN
+  << Sched("all-at-once", <<>>, 0), Sched("bytewise", <<>>, 1), Sched("segments", <<>>, 1400), Sched("segments", <<>>, 7),
+     Sched("segments", <<>>, 2), Sched("segments", <<>>, 3), Sched("segments", <<>>, 536), Sched("random", <<>>, 0), Sched("random", <<>>, 1),
+     Sched("random", <<>>, 2), Sched("every-boundary", <<>>, 0), Sched("inside-every-token", <<>>, 0), Sched("before-last-byte-of-every-token", <<>>, 0) >>
+  \o Flat([e \in 1..ne |-> Flat([i \in 1..lens[e] |->
+         IF keep(e, i)
+         THEN <<Sched("single-cut", <<Cut(e, i, 0)>>, 0), Sched("single-cut", <<Cut(e, i, 1)>>, 0), Sched("single-cut", <<Cut(e, i, 2)>>, 0)>> ELSE <<>>])])
+  \o Flat([e \in 1..ne - 1 |-> << Sched("span-boundary", <<Cut(e, lens[e], 2), Cut(e + 1, 1, 1)>>, 0),
+                                   Sched("span-boundary", <<Cut(e, lens[e] - 1, 0), Cut(e + 1, 3, 0)>>, 0),
+                                   Sched("span-boundary", <<Cut(e + 1, 1, 1)>>, 0),
+                                   Sched("span-boundary", <<Cut(e, 2, 0), Cut(e + 1, 2, 0)>>, 0) >>])
+ChunkCase(envs) == LET tl == Tup(LAMBDA e : EncEnv(envs[e]), Len(envs))
+                       lens == Tup(LAMBDA e : Len(tl[e]), Len(envs)) IN
+  [envs |-> Tup(LAMBDA e : [v |-> envs[e], toks |-> tl[e], bytes |-> ByteLen(tl[e])], Len(envs)), scheds |-> SchedSeq(lens)]
 ChunkStreams ==
-  { <<e>> : e \in ChunkShort } \cup { <<LongEnv(60, 3)>>, <<LongEnv(1000, 9)>> }
+  { <<e>> : e \in ChunkShort } \cup { <<LongEnv(100, 3)>>, <<LongEnv(400, 20)>>, <<LongEnv(1000, 20)>> }
   \cup { <<e, f>> : e \in ChunkShort, f \in { x \in ChunkShort : x.msg.t \in {"Ping", "Update"} } }
   \cup { <<e, Env([t |-> "Ping", time |-> 7]), e>> : e \in { x \in ChunkShort : x.msg.t \in {"Shutdown", "Sync"} } }
-  \cup { <<LongEnv(60, 3), Env([t |-> "Ping", time |-> 7]), LongEnv(60, 3)>> }
-  \cup (IF Deep THEN { <<LongEnv(1000, 9), LongEnv(1000, 9)>> } ELSE {})
-ExportChunk == \A s \in ChunkStreams : PrintT(ToJson(ChunkCase(s)))
+  \cup { <<LongEnv(100, 3), Env([t |-> "Ping", time |-> 7]), LongEnv(100, 3)>> }
+  \cup (IF Deep THEN { <<LongEnv(1000, 20), LongEnv(400, 20)>> } ELSE {})
+ExportChunk(u) == \A s \in ChunkStreams : PrintT(ToJson(ChunkCase(s)))
 (* the long envelopes really are longer than a segment / than 65000 bytes  *)
-ChunkSane == ByteLen(EncEnv(LongEnv(60, 3))) > 1500 /\ ByteLen(EncEnv(LongEnv(1000, 9))) > 65000
+ChunkSane(u) == ByteLen(EncEnv(LongEnv(100, 3))) > 1500 /\ ByteLen(EncEnv(LongEnv(1000, 20))) > 65000
 
 (***************************************************************************)
 (* What TLC evaluates                                                      *)
 (***************************************************************************)
-ASSUME Mode \in {"enc", "mut", "pair", "id", "chunk", "none"}
-ASSUME Mode \in {"enc", "none"} => Injective /\ PrefixFree /\ Deterministic
-ASSUME Mode = "enc" => ExportEnc
-ASSUME Mode = "mut" => MutSane /\ ExportMut
-ASSUME Mode = "pair" => PairTheorem /\ ExportPair
-ASSUME Mode = "id" => IdTheorem /\ ExportId
-ASSUME Mode = "chunk" => ChunkSane /\ ExportChunk
+(* (the operators take a dummy argument: TLC evaluates every zero-arity    *)
+(* constant definition at start-up, whatever the mode)                     *)
+ASSUME Mode \in {"enc", "mut", "pair", "id", "chunk", "none", "thm-inj", "thm-pf", "thm-det"}
+ASSUME Mode \in {"enc", "thm-inj"} => Injective(0)
+ASSUME Mode \in {"enc", "thm-pf"} => PrefixFree(0)
+ASSUME Mode \in {"enc", "thm-det"} => Deterministic(0)
+ASSUME Mode \in {"enc", "thm-inj"} => \A ty \in Types : PrintT(<<"values", ty, Cardinality(OfType(ty))>>)
+ASSUME Mode = "enc" => ExportEnc(0)
+ASSUME Mode = "mut" => MutSane(0) /\ ExportMut(0)
+ASSUME Mode = "pair" => PairTheorem(0) /\ ExportPair(0)
+ASSUME Mode = "id" => IdTheorem(0) /\ ExportId(0)
+ASSUME Mode = "chunk" => ChunkSane(0) /\ ExportChunk(0)
 
 (***************************************************************************)
 (* C16 in the model: a reader that needs Need[k] bytes for its k-th token  *)
